@@ -162,6 +162,12 @@ func (ni *NodeInterface) AddSentMessage(message *Message) error {
 		Name:     message.name,
 	}
 
+	// a node interface cannot send a message that it receives
+	if ni.receivedMessages.hasKey(message.entityID) {
+		addMsgErr.Err = ErrReceiverIsSender
+		return ni.errorf(addMsgErr)
+	}
+
 	if err := ni.verifyMessageName(message.name); err != nil {
 		addMsgErr.Err = err
 		return ni.errorf(addMsgErr)
